@@ -80,7 +80,7 @@ class TWorld(World):
         return OutputV(self.codes[i], out, "")
 
 
-def build_scenarios(P, run, quick, BUDGET, build_ops=("start_container", "run_shell_command", "download_sbom", "rebuild")):
+def build_scenarios(P, run, quick, BUDGET, build_ops=("start_container", "run_shell_command", "download_sbom", "rebuild"), container_config=None):
     """installs the libcnb-test environment stubs into P and returns entry(ctx): one TestRunner::build with a closure program"""
 
     fn = lambda suffix: _find(P, suffix)
@@ -225,9 +225,12 @@ def build_scenarios(P, run, quick, BUDGET, build_ops=("start_container", "run_sh
                 st["budget"] -= 1
                 r = Ref(Box(tc))
                 if op == "start_container":
-                    ports = AssocV(False, True)
-                    summ_coll.insert(ctx, ports, 8080, UNIT)
-                    ccfg = P.mk_struct("ContainerConfig", entrypoint=NONE, command=NONE, env=AssocV(False), exposed_ports=ports, bind_mounts=AssocV(False))
+                    if container_config is not None:
+                        ccfg = container_config(ctx)
+                    else:
+                        ports = AssocV(False, True)
+                        summ_coll.insert(ctx, ports, 8080, UNIT)
+                        ccfg = P.mk_struct("ContainerConfig", entrypoint=NONE, command=NONE, env=AssocV(False), exposed_ports=ports, bind_mounts=AssocV(False))
                     P.call(ctx, f_start, [r, ccfg, PyFn(lambda c2, cc: container_program(c2, st, cc))], tyenv={"C": "ContainerConfig", "F": "{pyfn}"})
                 elif op == "run_shell_command":
                     P.call(ctx, f_shell, [r, "true"], tyenv={"impl Into<String>": "&str"})
